@@ -1022,7 +1022,7 @@ func runC16(b *runner.Batch) {
 func init() {
 	runner.Register(&runner.Check{
 		ID: "C16", Level: "exploration",
-		Rule: "Three engines executing the tree's real update/_deploy(isUpdate). Gate: the current sources compiled from a scratch copy whose only change is a lower version number are deployed on committees of 3, 7 and 4 (there also: half of the committee as a signer set) with state in every contract, and update to the real build is attempted under {nobody, stranger, single member, one Inner Ring key, Alphabet 2/3+1, Inner Ring majority, committee majority}; for the role-gated main-chain contracts on the committee of 7 the NeoFSAlphabet role is re-designated in block N and block N+1 carries the update request of the dismissed majority (must be refused) followed by that of the acting one (must be granted); refusals must change nothing, the accepted upgrade must preserve the whole read API, a second upgrade must be refused. Bounds + synthetic legacy storages: a shim contract carrying the target's manifest name is filled (raw pokes) with the state of a live contract of the same world rewritten into the layout of the reported version {0, oldest-1, oldest, oldest+1, 15999..19999 class borders, new-1, new, new+1, 2^31} x notary flag {absent, false, true with no / stale / pending ballots} x legacy key layout, then upgraded; success iff oldest <= v < new and no pending vote, the read API and the raw storage afterwards must equal the live contract's, migrated subscribers must still receive ticks in order and migrated locks must unlock. Recorded dumps: the repository's network dumps are loaded twice, one copy upgraded, and the read API of both copies compared. distinct = (engine, contract, version class, flag variant, signer set, outcome).",
+		Rule: "Three engines executing the tree's real update/_deploy(isUpdate). Gate: the current sources compiled from a scratch copy whose only change is a lower version number are deployed on committees of 3, 7 and 4 (there also: half of the committee as a signer set) with state in every contract, and update to the real build is attempted under {nobody, stranger, single member, one Inner Ring key, Alphabet 2/3+1, Inner Ring majority, committee majority}; for the role-gated main-chain contracts on the committee of 7 the NeoFSAlphabet role is re-designated in block N and block N+1 carries the update request of the dismissed majority (must be refused) followed by that of the acting one (must be granted); refusals must change nothing, the accepted upgrade must preserve the whole read API, a second upgrade must be refused. Bounds + synthetic legacy storages: a shim contract carrying the target's manifest name is filled (raw pokes) with the state of a live contract of the same world rewritten into the layout of the reported version {0, oldest-1, oldest, oldest+1, 15999..19999 class borders, new-1, new, new+1, 2^31} x notary flag {absent, false, true with no / stale / pending ballots} x legacy key layout, then upgraded; success iff oldest <= v < new and no pending vote, the read API and the raw storage afterwards must equal the live contract's, migrated subscribers must still receive ticks in order and migrated locks must unlock. Recorded dumps: the repository's network dumps are loaded twice, one copy upgraded, and the read API of both copies compared. distinct = (engine, contract, version class, flag variant, signer set, outcome). Ballot lists with several decisions are synthesised too (the one in progress first, in the middle, last; several stale ones).",
 		Assumptions: []string{"neo-go v0.107.0 VM, ledger, ContractManagement are the trusted base", "contracts are compiled at check time from /repo/contracts; the down-versioned build differs only in common/version.go",
 			"the legacy layouts are reconstructed from the migration code's documented expectations (un-prefixed balance accounts, un-prefixed container keys, pre-0.16 node structures, notary/ballots flags, legacy subscriber keys, committee-owned TLD entries); the pre-0.17 non-notary Alphabet contract migration (GAS redistribution) is not synthesised"},
 		Batches: func(t string) int { return len(plans(t)) },
